@@ -625,7 +625,14 @@ def task_awaits(f):
         cur = n
         while cur is not f and absorbed is None:
             par = parent(cur)
-            if isinstance(par, ast.Try) and any(cur is s or any(cur is d for d in ast.walk(s)) for s in par.body):
+            if isinstance(par, (ast.With, ast.AsyncWith)) and any(cur is s or any(cur is d for d in ast.walk(s)) for s in par.body):
+                # `with contextlib.suppress(asyncio.CancelledError):` is an empty handler for it
+                for item in par.items:
+                    ce = item.context_expr
+                    if isinstance(ce, ast.Call) and (call_name(ce) or "").split(".")[-1] == "suppress" and any(
+                            "CancelledError" in norm(a) or "BaseException" in norm(a) for a in ce.args):
+                        absorbed = True
+            if absorbed is None and isinstance(par, ast.Try) and any(cur is s or any(cur is d for d in ast.walk(s)) for s in par.body):
                 for h in par.handlers:
                     names = norm(h.type) if h.type is not None else "BaseException"
                     if "CancelledError" in names or "BaseException" in names:
